@@ -250,3 +250,10 @@ Proof.
   intros Hp Hm Hn Hq. unfold vd_record. destruct (u32_ok (vd_space v)); [|discriminate].
   intros H. apply some_inv in H. subst b. unfold zlen. rewrite !app_length, Hp, Hm, Hn, Hq. reflexivity.
 Qed.
+
+Print Assumptions ip_crc_ccitt_range_any.
+Print Assumptions ip_dr_diff.
+Print Assumptions ip_fe_set_len_wf.
+Print Assumptions ip_fe_set_len_idem.
+Print Assumptions ip_fe_record_some.
+Print Assumptions ip_vd_diff.
